@@ -206,6 +206,15 @@ def replay(hexbytes, clause, loc):
     for a in affs: print('   ', a)
     print('read set :', sorted(R), [str(c) for c in Rm])
     print('write set:', sorted(W), [str(c) for c in Wm])
+    if clause == 'relift':
+        first = (sorted(R), sorted(W), sorted(str(c) for c in Rm), sorted(str(c) for c in Wm))
+        bad = 0
+        for k in (2, 3, 4):
+            R2, W2, Rm2, Wm2, _ = rw_sets(ins)
+            d = (sorted(R2), sorted(W2), sorted(str(c) for c in Rm2), sorted(str(c) for c in Wm2))
+            print('lifting #%d:' % k, d)
+            if d != first: bad = 1
+        return bad
     try:
         import z3
     except ImportError:
@@ -264,6 +273,17 @@ def _work(job):
                 out['n_simd'] += 1
         except Exception as ex:
             continue        # lifting crashes are C11's findings
+        # the sets are a function of the instruction: lifting it again (and once more) reports the same registers and the same cells
+        try:
+            def digest():
+                R2, W2, Rm2, Wm2, _ = rw_sets(ins)
+                return (sorted(R2), sorted(W2), sorted(str(c) for c in Rm2), sorted(str(c) for c in Wm2))
+            d1 = digest(); d2 = digest(); d3 = digest()
+            if not (d1 == d2 == d3):
+                bad = d2 if d2 != d1 else d3
+                res = list(res) + [('relift', 'sets', 'sat', 'lifting the same instruction again reports other sets: first %s, later %s' % (d1, bad))]
+        except Exception:
+            pass
         if not res:
             out['ok'] += 1
         for (clause, loc, status, detail) in res:
